@@ -53,9 +53,9 @@ func (g *vGen) scalar(kind string, allowZero bool) string {
 func (g *vGen) keys(kind string, n int) []string {
 	var pool []string
 	if kind == "s" {
-		pool = []string{"a", "b", "c", "k", "zz"}
+		pool = []string{"a", "b", "c", "k", "zz", "d", "e", "f", "g", "h", "m", "n", "p"}
 	} else {
-		pool = []string{"1", "2", "3", "5", "9"}
+		pool = []string{"1", "2", "3", "5", "9", "11", "12", "13", "14", "15", "16", "17", "18"}
 	}
 	perm := g.r.Perm(len(pool))
 	if n > len(pool) {
@@ -259,7 +259,7 @@ func init() {
 			var dt []string
 			tdescTokens(fs, &dt)
 			for j := 0; j < 5 && i < n; j++ {
-				vg := &vGen{r: r, H: 1 + r.Intn(3)}
+				vg := &vGen{r: r, H: hSlots(r)}
 				o := tpOpts{nr: 1, tr: 2, nor: 3, dr: 4}
 				if r.Intn(8) == 0 {
 					o.sheetSep = ";"
@@ -291,7 +291,7 @@ func init() {
 			var dt []string
 			tdescTokens(fs, &dt)
 			for j := 0; j < 5 && i < n; j++ {
-				vg := &vGen{r: r, H: 1 + r.Intn(3)}
+				vg := &vGen{r: r, H: hSlots(r)}
 				o := tpOpts{nr: 1, tr: 2, nor: 3, dr: 4}
 				val := vg.msg(fs, "", "", false)
 				emit("c07.case", o.token(), strconv.Itoa(vg.H), strings.Join(dt, " "), strings.Join(val, " "), strconv.Itoa(r.Intn(1000)))
@@ -305,4 +305,12 @@ func init() {
 		// a: opts desc grid val
 		return implTableParse([]string{a[0], a[1], a[2]})
 	})
+}
+
+// hSlots: the number of element slots of horizontal lists and maps; now and then two-digit element numbers
+func hSlots(r *rand.Rand) int {
+	if r.Intn(8) == 0 {
+		return 10 + r.Intn(3)
+	}
+	return 1 + r.Intn(3)
 }
